@@ -90,8 +90,6 @@ def main():
         done = run_model(c, model, cases, hp)
         c.evaluations += len(done)
         c.traces_validated += len(done)
-        for x, err in crashes:
-            c.violation("sanitizer abort / crash of the real service", dict(x.replay(), stderr=err))
         jl = [c02_judge_line(x) for x in done]
         rc, jout, jerr = c.run_lines(model, jl, timeout=3000)
         if len(jout) != len(jl):
@@ -125,8 +123,11 @@ def main():
         c.extra_cov["outcome_distribution"] = dict(sorted(kinds.items(), key=lambda kv: -kv[1])[:25])
         pick = [done[i] for i in (0, len(done) // 3, len(done) // 2, len(done) - 1)] if done else []
         c.samples = [{"case": x.line()[:300], "reads": x.d.get("reads"), "impl": x.impl[:300], "model": x.model[:300]} for x in pick]
-        for x, why in bad[:20]:
-            c.violation(why, x.replay())
+        for x, err in crashes:
+            bad.append((x, "sanitizer abort / crash of the real service: " + " ".join(l.strip() for l in err.splitlines() if "ERROR" in l or "runtime error" in l)[:300], err))
+        for item in pick_diverse(bad, 20):
+            x, why = item[0], item[1]
+            c.violation(why, dict(x.replay(), stderr=item[2]) if len(item) > 2 else x.replay())
         if diffs and not bad and not crashes:
             x = diffs[0]
             c.broke("correspondence (model vs real service)", f"{len(diffs)} differing cases; first: {x.line()[:400]}\nimpl : {x.impl[:600]}\nmodel: {x.model[:600]}")
